@@ -13,7 +13,7 @@ def classify(case_line):
 CFG = dict(
     imports=["From Verif.Common Require Import Labels.", "From Verif.C03 Require Import Model Spec Pipe.", "Open Scope N_scope."],
     checker="check_acase",
-    n=dict(quick=160, thorough=2000),
+    n=dict(quick=160, thorough=1920),
     shard=30,
     classify=classify,
     rule="3/4 of the cases (stream:random/prefix-names...): histories (10-45 ops) on the real PolicyResolver+PolicySorter over 3-6 policy keys (same name in different "
